@@ -11,7 +11,7 @@ mention only definitions above it (never itself as a global), each expected name
 definitions must not change."""
 import collections
 import json
-import os
+import os, sys
 import re
 import shutil
 import subprocess
@@ -109,6 +109,8 @@ def check(ctx, build=None):
 
     def viol(what, inp, expected, observed):
         nonlocal found
+        if os.environ.get("VERIF_DEBUG"):
+            sys.stderr.write("debug: %s %s %s\n" % (what, inp.get("probe", ""), json.dumps(observed)[:300]))
         if not found:
             found = True
             ctx.violation("counterexample", what, inp, expected=expected, observed=observed)
@@ -198,6 +200,19 @@ def check(ctx, build=None):
         probes["interface-argument-in-recursion"] = ("type Shape interface {\n\tArea() uint64\n}\n\ntype Sq struct {\n\tside uint64\n}\n\nfunc (s Sq) Area() uint64 {\n\treturn s.side\n}\n\n"
                                                      "func Caller() uint64 {\n\treturn Measure(Sq{side: 2})\n}\n\nfunc Measure(s Shape) uint64 {\n\treturn s.Area()\n}\n\n"
                                                      "func Steps(s Shape, n uint64) uint64 {\n\tif n == 0 {\n\t\treturn 0\n\t}\n\treturn Steps(Sq{side: n}, n-1) + 1\n}\n")
+        probes["struct-store-and-load-before-struct"] = ("func copyS(p, q *LateS) {\n\t*q = *p\n}\n\ntype LateS struct {\n\ta uint64\n}\n")
+        probes["field-store-before-struct"] = ("func setA(p *LateS) {\n\tp.a = 3\n}\n\ntype LateS struct {\n\ta uint64\n}\n")
+        probes["field-address-before-struct"] = ("func refA(p *LateS) *uint64 {\n\treturn &p.a\n}\n\ntype LateS struct {\n\ta uint64\n}\n")
+        probes["method-value-of-own-method"] = ("type SV struct {\n\tv uint64\n}\n\nfunc applyF(f func() uint64) uint64 {\n\treturn f()\n}\n\n"
+                                                "func (s *SV) m() uint64 {\n\tif s.v == 0 {\n\t\treturn 0\n\t}\n\treturn applyF(s.m)\n}\n")
+        probes["constant-group-forward-reference"] = ("const (\n\tFirstC uint64 = SecondC + 1\n\tSecondC uint64 = 1\n)\n\nfunc useC() uint64 {\n\treturn FirstC\n}\n")
+        probes["blank-methods"] = ("type BM struct {\n\tv uint64\n}\n\nfunc (s BM) _() {\n}\n\nfunc (s BM) _() uint64 {\n\treturn s.v\n}\n")
+        probes["blank-types"] = ("type _ struct {\n\ta uint64\n}\n\ntype _ struct {\n\tb uint64\n}\n\nfunc keepT() uint64 {\n\treturn 1\n}\n")
+        probes["method-value-on-named-integer"] = ("type NI uint64\n\nfunc (n NI) get() uint64 {\n\treturn uint64(n)\n}\n\nfunc useNI(n NI) uint64 {\n\tg := n.get\n\treturn g()\n}\n")
+        probes["interface-conversion-before-method"] = ("type Sh interface {\n\tarea() uint64\n}\n\nfunc measure(s Sh) uint64 {\n\treturn s.area()\n}\n\nfunc useSq(s SqL) uint64 {\n\treturn measure(s)\n}\n\n"
+                                                      "type SqL struct {\n\tside uint64\n}\n\nfunc (s SqL) area() uint64 {\n\treturn s.side\n}\n")
+        probes["method-on-alias-receiver"] = ("type SA struct {\n\tv uint64\n}\n\ntype AA = SA\n\nfunc (x AA) m() uint64 {\n\treturn x.v\n}\n\nfunc callM(s SA) uint64 {\n\treturn s.m()\n}\n")
+        probes["type-parameter-named-like-a-function"] = ("func id[T any](x T) T {\n\treturn x\n}\n\nfunc T() uint64 {\n\treturn id[uint64](1)\n}\n")
         for pid, psrc in sorted(probes.items()):
             root = os.path.join(scratch, "probe")
             gomod.write_module(root, {"p": {"p.go": "package p\n\n" + psrc}})
@@ -233,6 +248,12 @@ def check(ctx, build=None):
                 if late:
                     viol("C04: a definition mentions a definition that is not above it (or itself as a global)",
                          {"proto": "c04-probe", "probe": pid, "source": "package p\n\n" + psrc, "emitted": k4.emitted_def(text, n)}, "only definitions above", {"definition": n, "mentions": late, "order": order})
+                # a method is emitted under the name Type__method: a name of that shape which no definition of the file carries
+                # is a method that was declared in Go and is not there under the name its uses expect
+                ghost = [u for u in ms if re.fullmatch(r"\w*__\w+", u) and u not in pos and "__to__" not in u]
+                if ghost:
+                    viol("C04: a definition mentions a method name that no definition of the file has",
+                         {"proto": "c04-probe", "probe": pid, "source": "package p\n\n" + psrc, "emitted": k4.emitted_def(text, n)}, "every Type__method name mentioned is defined in the file", {"definition": n, "mentions": ghost, "order": order})
         # ---- re-translating over an older output file: still exactly one definition per declaration
         found = gomod.retranslate_stream(ctx, scratch, "C04: the output file holds more or other definitions than the package", found)
     finally:
